@@ -14,6 +14,74 @@ mod parse;
 
 use std::io::{BufRead, Write};
 
+fn dispatch(fam: &str, rest: &[&str]) -> Result<String, String> {
+    let mut t = parse::Toks::new(rest);
+    if fam == "o_pool" {
+        return pool_oracle(&mut t);
+    }
+    if let Some(r) = fam_asm::run(fam, &mut t) {
+        return r;
+    }
+    if let Some(r) = fam_vm::run(fam, &mut t) {
+        return r;
+    }
+    if let Some(r) = fam_types::run(fam, &mut t) {
+        return r;
+    }
+    if let Some(r) = fam_types::run_oracle(fam, &mut t) {
+        return r;
+    }
+    if let Some(r) = fam_check::run(fam, &mut t) {
+        return r;
+    }
+    if let Some(r) = fam_sign::run(fam, &mut t) {
+        return r;
+    }
+    if let Some(r) = fam_crypto::run(fam, &mut t) {
+        return r;
+    }
+    if let Some(r) = orc_vm::run(fam, &mut t) {
+        return r;
+    }
+    if let Some(r) = orc_asm::run(fam, &mut t) {
+        return r;
+    }
+    if let Some(r) = fam_lock::run(fam, &mut t) {
+        return r;
+    }
+    Err("bad-family".to_string())
+}
+
+/// C02: `o_pool <k> <size_1..size_k> <reps> <family> <tokens…>` — the inner case is run on the calling thread's
+/// default pool once, then `reps` times inside a dedicated rayon pool of every listed size (with state-read jitter
+/// derived from the repetition number); every result must equal the result on a pool of one worker.
+fn pool_oracle(t: &mut parse::Toks) -> Result<String, String> {
+    let sizes = t.list(|t| t.nat())?;
+    let reps = t.nat()?;
+    let fam = t.tok()?.to_string();
+    let rest: Vec<&str> = t.rest();
+    let run_in = |threads: usize, jitter: u64| -> Result<String, String> {
+        let pool = rayon::ThreadPoolBuilder::new().num_threads(threads).build().map_err(|e| e.to_string())?;
+        fam_check::JITTER.store(jitter, std::sync::atomic::Ordering::SeqCst);
+        let r = pool.install(|| match std::panic::catch_unwind(|| dispatch(&fam, &rest)) {
+            Ok(r) => r,
+            Err(_) => Ok("panic".to_string()),
+        });
+        fam_check::JITTER.store(0, std::sync::atomic::Ordering::SeqCst);
+        r
+    };
+    let base = run_in(1, 0)?;
+    for &n in &sizes {
+        for rep in 0..reps {
+            let got = run_in(n, if rep == 0 { 0 } else { rep as u64 * 7919 + n as u64 })?;
+            if got != base {
+                return Ok(format!("FAIL pool of {n} workers (repetition {rep}) gives `{got}`, one worker gives `{base}`"));
+            }
+        }
+    }
+    Ok("ok".into())
+}
+
 fn run_line(line: &str) -> String {
     let toks: Vec<&str> = line.trim().split(' ').collect();
     if toks.len() < 2 {
@@ -21,40 +89,7 @@ fn run_line(line: &str) -> String {
     }
     let (id, fam) = (toks[0], toks[1]);
     let rest = &toks[2..];
-    let res = std::panic::catch_unwind(|| {
-        let mut t = parse::Toks::new(rest);
-        if let Some(r) = fam_asm::run(fam, &mut t) {
-            return r;
-        }
-        if let Some(r) = fam_vm::run(fam, &mut t) {
-            return r;
-        }
-        if let Some(r) = fam_types::run(fam, &mut t) {
-            return r;
-        }
-        if let Some(r) = fam_types::run_oracle(fam, &mut t) {
-            return r;
-        }
-        if let Some(r) = fam_check::run(fam, &mut t) {
-            return r;
-        }
-        if let Some(r) = fam_sign::run(fam, &mut t) {
-            return r;
-        }
-        if let Some(r) = fam_crypto::run(fam, &mut t) {
-            return r;
-        }
-        if let Some(r) = orc_vm::run(fam, &mut t) {
-            return r;
-        }
-        if let Some(r) = orc_asm::run(fam, &mut t) {
-            return r;
-        }
-        if let Some(r) = fam_lock::run(fam, &mut t) {
-            return r;
-        }
-        Err("bad-family".to_string())
-    });
+    let res = std::panic::catch_unwind(|| dispatch(fam, rest));
     match res {
         Ok(Ok(s)) => format!("{id} {s}"),
         Ok(Err(e)) if e == "bad-family" => format!("{id} bad-family"),
